@@ -413,3 +413,45 @@ MALFORMED = [
     ("missing", None), ("missing_nan", float("nan")), ("space", "CCO >> CC=O"),
     ("three_gt", "CCO>>>CC=O"), ("unparsable", "[Xx]>>C"), ("unparsable", "c1ccccc>>C"),
 ]
+
+
+@st.composite
+def maybe_respelled(draw, rx_strategy, prob_den=4, **kw):
+    """(rxn, tags) -> with probability 1/prob_den an equivalent respelling (maps, atom order...)."""
+    rxn, tags = draw(rx_strategy)
+    if draw(st.integers(0, prob_den - 1)) == 0:
+        new = draw(respell_reaction(rxn, **kw))
+        if new != rxn:
+            return new, list(tags) + ["respelled"]
+    return rxn, list(tags)
+
+
+HEAVY_REACTIONS = [
+    ("[U]>>[Th]", False), ("[U]>>[U]", True), ("[U].[Th]>>[Th].[U]", True), ("[Pu+3].[Cl-].[Cl-].[Cl-]>>Cl[Pu](Cl)Cl", True),
+    ("[Ra+2].[Cl-].[Cl-]>>[Ra+2].[Cl-]", False), ("O=[U+2]=O.[OH-].[OH-]>>O=[U](O)(O)=O", True), ("O=[U+2]=O.[OH-]>>O=[U](O)(O)=O", False),
+    ("[Rn]>>[Og]", False), ("[Fr+].[Cl-]>>[Fr]Cl", True), ("CC[U]>>CC[Th]", False), ("CCO.[U]>>CC=O.[U]", False),
+    ("CCO.[Am]>>CCO.[Cm]", False), ("[Ac+3].[Ac+3]>>[Ac+3].[Pa+3]", False), ("CC(=O)O.[Lr]>>CC(=O)O.[Lr]", True),
+    ("[Np]>>[Pu]", False), ("[No].[Md]>>[Md].[No]", True), ("[Rf].[Db]>>[Sg].[Bh]", False), ("[Cn]>>[Cn]", True),
+    ("[Fl].C>>C.[Mc]", False), ("[Ts][Ts]>>[Ts].[Ts]", True), ("C[Hs]>>C[Mt]", False),
+]
+
+
+MARKER_MOLS = ["[H][H]", "OO", "OOC(C)(C)C", "OOC(C)=O", "OOC", "OOCc1ccccc1", "[H]O[H]", "[H]OC", "[H]C([H])([H])O",
+               "[OH2]", "[CH4]", "[CH3][OH]", "[H]OO[H]", "[O-]O", "OO[Na]", "O", "[OH-]", "[H+]", "[H-]", "[2H][2H]",
+               "[H]Cl", "[O]=C=[O]", "[O-][N+](=O)c1ccccc1", "O=O", "[H]N([H])[H]", "[HH]"]
+
+
+@st.composite
+def with_markers(draw, rx_strategy, max_markers=2):
+    """Adds 1..max_markers molecules whose text contains the substrings the pipeline uses as markers
+    ('.[H]', '.[O]', '.OO') at drawn positions (never first unless the side is empty)."""
+    rxn, tags = draw(rx_strategy)
+    a, b = oracle.split_reaction(rxn)
+    sides = [a.split(".") if a else [], b.split(".") if b else []]
+    for _ in range(draw(st.integers(1, max_markers))):
+        m = draw(st.sampled_from(MARKER_MOLS))
+        where = draw(st.sampled_from(["p", "p", "r", "both"]))
+        for k in ([0] if where == "r" else [1] if where == "p" else [0, 1]):
+            pos = draw(st.integers(0, len(sides[k])))
+            sides[k].insert(pos, m)
+    return ".".join(sides[0]) + ">>" + ".".join(sides[1]), list(tags) + ["markers"]
